@@ -37,7 +37,7 @@
 (*   [e |-> "ret", rem |-> length of the returned remainder]               *)
 (* cfg = [decls, spell, trie, K (queue capacity, 0 = none), legacy]        *)
 (***************************************************************************)
-EXTENDS ScpiSyntax, ScpiTree, ScpiValues, ScpiResponse, ErrorQueue
+EXTENDS ScpiSyntax, ScpiTree, ScpiValues, ScpiResponse, ErrorQueue, ScpiErrors
 
 \* wildcards of the implementation-shaped layer: an error whose number/text the
 \* specification does not predict (syntax errors) is written n = 0, txt = <<>>
@@ -60,9 +60,9 @@ T_Numeric   == <<78,117,109,101,114,105,99,32,100,97,116,97,32,101,114,114,111,1
 T_IllegalPV == <<73,108,108,101,103,97,108,32,112,97,114,97,109,101,116,101,114,32,118,97,108,117,101>>
 T_NParams   == <<85,110,101,120,112,101,99,116,101,100,32,110,117,109,98,101,114,32,111,102,32,112,97,114,97,109,101,116,101,114,115>>
 T_TooMuch   == <<84,111,111,32,109,117,99,104,32,100,97,116,97>>
-ErrText(n) == CASE n = -113 -> T_UndefinedHeader [] n = -104 -> T_DataType [] n = -120 -> T_Numeric
-                [] n = -224 -> T_IllegalPV [] n = -115 -> T_NParams [] n = -223 -> T_TooMuch
-                [] n = -350 -> QOverflowTxt [] OTHER -> ANYT
+\* description of a standard error number (ScpiErrors); ANYT for numbers outside the table
+\* (device-specific / custom errors carry their own text)
+ErrText(n) == StdErrText(n)
 TextOk(n, txt) == ErrText(n) = ANYT \/ txt = ErrText(n)
 
 \* ----------------------------------------------------- header resolution
@@ -168,7 +168,7 @@ UnitAlts(cfg, st, path, u, obs, emb, mode) ==
            d == cfg.decls[id]
            n == Len(d.args)
        IN
-       IF Len(u.args) # n THEN FaultAlts(cfg, st, obs, emb, LAMBDA ev : TRUE)
+       IF Len(u.args) # n THEN FaultAlts(cfg, st, obs, emb, LAMBDA ev : TextOk(ev.n, ev.txt))
        ELSE
          \* (b) parameter k is the first one rejected: its error, handler not invoked
          (UNION {IF \A j \in 1..(k - 1) : CanDeliver(u.args[j], d.args[j])
@@ -200,7 +200,7 @@ MsgFrom(cfg, st, path, us, k, obs, emb, mode) ==
        IF u.ph = "REJ"
        THEN \* syntax fault: exactly one error (any number), nothing else from this message
             IF emb THEN {Freed(st)}
-            ELSE IF IsEv(obs, st.i, "err") THEN {PushObs(cfg, st, obs[st.i])} ELSE {}
+            ELSE IF IsEv(obs, st.i, "err") /\ TextOk(obs[st.i].n, obs[st.i].txt) THEN {PushObs(cfg, st, obs[st.i])} ELSE {}
        ELSE UNION {IF r.cont = "abort" THEN {r.st}
                    ELSE MsgFrom(cfg, r.st, NextPath(path, u), us, k + 1, obs, emb, mode)
                    : r \in UnitAlts(cfg, st, path, u, obs, emb, mode)}
